@@ -575,7 +575,11 @@ GLUE_SITES = [
 ]
 # owners whose attributes are the attributes of the image data set itself
 GLUE_OWNERS = ('self', 'image', 'ds', 'mf_dataset', 'self.metadata')
-GLUE_LOCALS = ('frame_index', 'index', 'raw_frame', 'frame', 'frame_data', 'pixel_array', 'ds.pixel_array * 1')
+GLUE_LOCALS = ('frame_index', 'index', 'raw_frame', 'frame', 'frame_data', 'pixel_array', 'ds.pixel_array * 1', 'segment_array')
+# sites whose call passes a keyword dictionary built nearby (`encode_frame(x, **kw)`, `pool.submit(encode_frame, array=x, **kw)`)
+GLUE_KWARGS_SITES = [
+    ('seg/sop.py', 'Segmentation.__init__', 'encode_frame'),
+]
 
 
 def _glue_tree(rel):
@@ -636,6 +640,84 @@ def _glue_norm(e, site_cls, rel, init_assign, spans):
     raise Unsupported(f'argument expression outside the glue fragment: {txt[:80]}')
 
 
+
+def _glue_kwargs_dict(fn, name, qual):
+    """the keyword dictionary `name` of function `fn`: assigned exactly once, as `dict(k=v, ..)` or a `{..}` literal with string
+    keys, and never changed afterwards (no item assignment, no `del`, no mutating method, not handed to anything but `**name`)"""
+    asg = [s for s in ast.walk(fn) if isinstance(s, (ast.Assign, ast.AnnAssign))
+           and any(ast.unparse(t) == name for t in (s.targets if isinstance(s, ast.Assign) else [s.target]))]
+    if len(asg) != 1:
+        raise Unsupported(f'{qual}: {name} is assigned {len(asg)} times')
+    v = asg[0].value
+    if isinstance(v, ast.Call) and ast.unparse(v.func) == 'dict' and not v.args and all(k.arg is not None for k in v.keywords):
+        items = {k.arg: k.value for k in v.keywords}
+        if len(items) != len(v.keywords):
+            raise Unsupported(f'{qual}: {name} names a key twice')
+    elif isinstance(v, ast.Dict) and all(isinstance(k, ast.Constant) and isinstance(k.value, str) for k in v.keys):
+        items = {k.value: val for k, val in zip(v.keys, v.values)}
+        if len(items) != len(v.keys):
+            raise Unsupported(f'{qual}: {name} names a key twice')
+    else:
+        raise Unsupported(f'{qual}: {name} is not a dict(k=v, ..) / {{..}} literal: {ast.unparse(v)[:60]}')
+    for n in ast.walk(fn):
+        if isinstance(n, ast.Name) and n.id == name and not isinstance(n.ctx, ast.Store):
+            pass
+        if isinstance(n, (ast.Subscript, ast.Attribute)) and ast.unparse(n.value) == name:
+            raise Unsupported(f'{qual}: {name} is indexed / a method of it is used ({ast.unparse(n)[:40]}): it may be changed after it was built')
+        if isinstance(n, ast.Delete) and any(name in ast.unparse(t) for t in n.targets):
+            raise Unsupported(f'{qual}: {name} is deleted from')
+    uses = [n for n in ast.walk(fn) if isinstance(n, ast.Name) and n.id == name and isinstance(n.ctx, ast.Load)]
+    stars = [k for c in ast.walk(fn) if isinstance(c, ast.Call) for k in c.keywords if k.arg is None and ast.unparse(k.value) == name]
+    if len(uses) != len(stars):
+        raise Unsupported(f'{qual}: {name} is used other than as `**{name}`')
+    return items, asg[0]
+
+
+def _glue_kwargs_site(t, rel, qual, callee, sigs, rows, spans):
+    """every use of `callee` in `qual`: called directly or submitted to an executor (`X.submit(callee, ..)`), positional and keyword
+    arguments plus ONE keyword dictionary built in the same function"""
+    fn = find_func(t, qual)
+    if fn.decorator_list:
+        raise Unsupported(f'{qual} is wrapped by a decorator')
+    uses = []
+    for n in ast.walk(fn):
+        if isinstance(n, ast.Call) and ast.unparse(n.func) == callee:
+            uses.append(('call', n, list(n.args)))
+        elif isinstance(n, ast.Call) and isinstance(n.func, ast.Attribute) and n.func.attr == 'submit' and n.args \
+                and ast.unparse(n.args[0]) == callee:
+            uses.append(('submit', n, list(n.args[1:])))
+    mentions = [n for n in ast.walk(fn) if isinstance(n, ast.Name) and n.id in ('encode_frame', 'decode_frame')]
+    if not uses or len(mentions) != len(uses):
+        raise Unsupported(f'{qual}: {len(uses)} call(s) / submission(s) of {callee}, {len(mentions)} mention(s)')
+    uses.sort(key=lambda u: u[1].lineno)
+    for k, (how, c, pos) in enumerate(uses):
+        if any(isinstance(x, ast.Starred) for x in pos):
+            raise Unsupported(f'{qual}: *args in the {how} of {callee}')
+        got = dict(zip(sigs[callee], pos))
+        stars = [kw for kw in c.keywords if kw.arg is None]
+        if len(stars) != 1 or not isinstance(stars[0].value, ast.Name):
+            raise Unsupported(f'{qual}: expected exactly one `**name` in the {how} of {callee}')
+        items, asg = _glue_kwargs_dict(fn, stars[0].value.id, qual)
+        spans.append(asg)
+        for kw in c.keywords:
+            if kw.arg is None:
+                continue
+            if kw.arg in got or kw.arg in items or kw.arg not in sigs[callee]:
+                raise Unsupported(f'{qual}: keyword {kw.arg} of {callee} given twice / unknown')
+            got[kw.arg] = kw.value
+        for key, val in items.items():
+            if key in got or key not in sigs[callee]:
+                raise Unsupported(f'{qual}: key {key} of the keyword dictionary given twice / no parameter of {callee}')
+            got[key] = val
+        site = f'{rel}:{qual}#{how}{k}'
+        for prm in sigs[callee]:
+            if prm in got:
+                rows.append((site, callee, prm, _glue_norm(got[prm], '', rel, {}, spans), ast.unparse(got[prm])))
+            else:
+                rows.append((site, callee, prm, '<default>', ''))
+        spans.append(c)
+
+
 def build_T13g(tree):
     """Every call of `decode_frame` / `encode_frame` in the image classes (`image.py` pixel transform, `get_stored_frame`,
     `get_stored_frames`; `io.ImageFileReader.read_frame`; `SCImage.__init__`; `ParametricMap._encode_frame`; the legacy
@@ -643,7 +725,9 @@ def build_T13g(tree):
     through the callee's current signature; a parameter that is not passed is listed as `<default>`.  `Proofs/CodecGlue.lean`
     proves that each reader hands `decode_frame` the data set's own attribute for every parameter (`call_sites_tie`).
     `**kwargs` / `*args` at a call site, a second call in a site, a site that no longer calls, an argument outside the normal
-    forms: TRANSLATION-BROKEN.  (`seg/sop.py` passes a keyword dictionary: outside, C01-C04.)"""
+    forms: TRANSLATION-BROKEN.  `Segmentation.__init__` (seg/sop.py) passes a keyword dictionary built in the same function
+    (`encode_frame(x, **kw)` and `pool.submit(encode_frame, array=x, **kw)`): `GLUE_KWARGS_SITES` -- the dictionary must be assigned
+    once as `dict(k=v, ..)` / a literal and only ever be used as `**kw`; one site per use (`#call0`, `#submit1`)."""
     sigs = {}
     for name in ('encode_frame', 'decode_frame'):
         a = find_func(tree, name).args
@@ -696,6 +780,8 @@ def build_T13g(tree):
             else:
                 rows.append((f'{rel}:{qual}', callee, prm, '<default>', ''))
         spans.append(c)
+    for rel, qual, callee in GLUE_KWARGS_SITES:
+        _glue_kwargs_site(_glue_tree(rel), rel, qual, callee, sigs, rows, spans)
     q = lambda s: '"' + s.replace('\\', '\\\\').replace('"', '\\"') + '"'   # noqa: E731
     text = lean_table('frameCodecCallSites', 'List (String × String × String × String × String)',
                       ['(' + ', '.join(q(x) for x in r) + ')' for r in rows],
